@@ -543,7 +543,16 @@ func (p *Pipeline) In(sourceID SourceID, sourceName string, offsets Offsets, byt
 		}
 	}
 	if cutoff && p.settings.CutOffEventByLimitField != "" {
-		event.Root.AddFieldNoAlloc(event.Root, p.settings.CutOffEventByLimitField).MutateToBool(true)
+		if event.Root.IsArray() {
+			// as for the meta above: an array root cannot carry a field, its objects can
+			for _, elem := range event.Root.AsArray() {
+				if elem.IsObject() {
+					elem.AddFieldNoAlloc(event.Root, p.settings.CutOffEventByLimitField).MutateToBool(true)
+				}
+			}
+		} else {
+			event.Root.AddFieldNoAlloc(event.Root, p.settings.CutOffEventByLimitField).MutateToBool(true)
+		}
 	}
 
 	event.Offset = offsets.current
